@@ -348,16 +348,61 @@ pub fn replay_generr(doc: &Value, t: &mut Tally) {
     t.nontrivial += 1;
 }
 
-/// property-file generators (UnicodeGen<Script> + UcdTableGen): lines in any order
+/// property-file generators (UnicodeGen<T> + UcdTableGen): lines in any order.  The same model file is written in the
+/// five file formats the build scripts read (Scripts, DerivedJoiningType, HangulSyllableType, PropList,
+/// DerivedCoreProperties), the model's two values being mapped to two values of the respective property
+fn run_prop_kind(kind: usize, dir: &Path, out: &Path) -> Result<String, String> {
+    let mut gen = RustCodeGen::new(out).map_err(|e| e.to_string())?;
+    let mut ucd_gen = UcdFileGen::new(dir);
+    macro_rules! typed {
+        ($t:ty, $a:expr, $b:expr) => {{
+            let mut sg: UnicodeGen<$t> = UnicodeGen::new();
+            sg.add(Box::new(UcdTableGen::new($a, "T_GC")));
+            sg.add(Box::new(UcdTableGen::new($b, "T_VIR")));
+            ucd_gen.add(Box::new(sg));
+        }};
+    }
+    match kind {
+        0 => typed!(ucd_parse::Script, "Greek", "Hebrew"),
+        1 => typed!(precis_tools::DerivedJoiningType, "D", "T"),
+        2 => typed!(precis_tools::HangulSyllableType, "L", "V"),
+        3 => typed!(ucd_parse::Property, "Join_Control", "Noncharacter_Code_Point"),
+        _ => typed!(ucd_parse::CoreProperty, "Default_Ignorable_Code_Point", "Alphabetic"),
+    }
+    gen.add(Box::new(ucd_gen));
+    gen.generate_code().map_err(|e| e.to_string())?;
+    drop(gen);
+    std::fs::read_to_string(out).map_err(|e| e.to_string())
+}
+
+const PROP_KINDS: [(&str, &str, &str, &str); 5] = [
+    ("Scripts.txt", "Scripts", "Greek", "Hebrew"),
+    ("extracted/DerivedJoiningType.txt", "DerivedJoiningType", "D", "T"),
+    ("HangulSyllableType.txt", "HangulSyllableType", "L", "V"),
+    ("PropList.txt", "PropList", "Join_Control", "Noncharacter_Code_Point"),
+    ("DerivedCoreProperties.txt", "DerivedCoreProperties", "Default_Ignorable_Code_Point", "Alphabetic"),
+];
+
 pub fn replay_prop(doc: &Value, t: &mut Tally) {
     let dir = scratch();
     let m = doc["m"].as_u64().unwrap() as u32;
-    for base in [0x0370u32, 0xD7FD, 0xFFFC, 0x10FF00] {
-        let mut text = String::from("# Scripts-like model file\n\n");
+    std::fs::create_dir_all(dir.join("extracted")).ok();
+    for (bi, base) in [0x0370u32, 0xD7FD, 0xFFFC, 0x10FF00].iter().enumerate() {
+      // every base through the Scripts format, the other four formats on one base each (rotating)
+      for kind in 0..PROP_KINDS.len() {
+        if kind != 0 && (kind + bi) % 4 != 0 {
+            continue;
+        }
+        let (file, label, va, vb) = PROP_KINDS[kind];
+        let mut text = format!("# {}-like model file\n\n", label);
         for l in doc["lines"].as_array().unwrap() {
             let lo = base + l["lo"].as_u64().unwrap() as u32;
             let hi = base + l["hi"].as_u64().unwrap() as u32;
-            let v = l["v"].as_str().unwrap();
+            let v = match l["v"].as_str().unwrap() {
+                "Greek" => va,
+                "Hebrew" => vb,
+                other => other,
+            };
             if lo == hi {
                 text.push_str(&format!("{:04X}          ; {} # Lo       MODEL\n", lo, v));
             } else {
@@ -365,35 +410,24 @@ pub fn replay_prop(doc: &Value, t: &mut Tally) {
             }
         }
         text.push_str("\n# EOF\n");
-        let mut f = std::fs::File::create(dir.join("Scripts.txt")).unwrap();
+        let mut f = std::fs::File::create(dir.join(file)).unwrap();
         f.write_all(text.as_bytes()).unwrap();
         drop(f);
         t.executions += 1;
         let out = dir.join("scripts.rs");
-        let res = std::panic::catch_unwind(|| twice(&out, || -> Result<String, String> {
-            let mut gen = RustCodeGen::new(&out).map_err(|e| e.to_string())?;
-            let mut ucd_gen = UcdFileGen::new(&dir);
-            let mut sg: UnicodeGen<ucd_parse::Script> = UnicodeGen::new();
-            sg.add(Box::new(UcdTableGen::new("Greek", "T_GC")));
-            sg.add(Box::new(UcdTableGen::new("Hebrew", "T_VIR")));
-            ucd_gen.add(Box::new(sg));
-            gen.add(Box::new(ucd_gen));
-            gen.generate_code().map_err(|e| e.to_string())?;
-            drop(gen);
-            std::fs::read_to_string(&out).map_err(|e| e.to_string())
-        }));
+        let res = std::panic::catch_unwind(|| twice(&out, || run_prop_kind(kind, &dir, &out)));
         let src = match res {
             Err(_) => {
-                t.mismatch(json!({"k": "prop", "base": base, "lines": doc["lines"], "actual": "panic in the generators"}));
+                t.mismatch(json!({"k": "prop", "format": label, "base": base, "lines": doc["lines"], "actual": "panic in the generators"}));
                 continue;
             }
             Ok(Err(e)) => {
-                t.mismatch(json!({"k": "prop", "base": base, "lines": doc["lines"], "actual": format!("generator error: {}", e)}));
+                t.mismatch(json!({"k": "prop", "format": label, "base": base, "lines": doc["lines"], "actual": format!("generator error: {}", e)}));
                 continue;
             }
             Ok(Ok(s)) => s,
         };
-        // the two tables were emitted under the names the shared parser knows (T_GC = Greek, T_VIR = Hebrew)
+        // the two tables were emitted under the names the shared parser knows (T_GC = first value, T_VIR = second value)
         let tb = parse_tables(&src);
         let mut diffs: Vec<Value> = Vec::new();
         for mcp in 0..m {
@@ -403,17 +437,18 @@ pub fn replay_prop(doc: &Value, t: &mut Tally) {
                 Err(_) => diffs.push(json!({"cp": mcp, "table": "search panicked"})),
                 Ok((greek, hebrew)) => {
                     if json!(greek) != *expected_at(&doc["greek"], mcp) {
-                        diffs.push(json!({"cp": mcp, "table": "Greek", "actual": greek}));
+                        diffs.push(json!({"cp": mcp, "table": va, "actual": greek}));
                     }
                     if json!(hebrew) != *expected_at(&doc["hebrew"], mcp) {
-                        diffs.push(json!({"cp": mcp, "table": "Hebrew", "actual": hebrew}));
+                        diffs.push(json!({"cp": mcp, "table": vb, "actual": hebrew}));
                     }
                 }
             }
         }
         if !diffs.is_empty() {
-            t.mismatch(json!({"k": "prop", "base": base, "lines": doc["lines"], "diffs": diffs}));
+            t.mismatch(json!({"k": "prop", "format": label, "base": base, "lines": doc["lines"], "diffs": diffs}));
         }
+      }
     }
     if doc["lines"].as_array().unwrap().len() > 1 {
         t.nontrivial += 1;
